@@ -252,17 +252,10 @@ func (r *relay) processFrame(f http2.Frame) error {
 		} else {
 			var settings []http2.Setting
 			if err = f.ForeachSetting(func(s http2.Setting) error {
-				switch s.ID {
-				case http2.SettingHeaderTableSize:
-					r.peer.updateTableSize(s.Val)
-				case http2.SettingInitialWindowSize:
-					r.peer.updateInitialWindowSize(s.Val)
-				case http2.SettingMaxFrameSize:
-					r.peer.updateMaxFrameSize(s.Val)
-				}
 				settings = append(settings, s)
 				return nil
 			}); err == nil {
+				r.peer.applySettings(settings)
 				r.destMu.Lock()
 				err = r.dest.WriteSettings(settings...)
 				r.destMu.Unlock()
@@ -309,6 +302,46 @@ func (r *relay) processFrame(f http2.Frame) error {
 
 func (r *relay) processor(id uint32) Processor {
 	return r.processors.Get(id, r.dir)
+}
+
+// applySettings applies the parameters of one SETTINGS frame in the order in which they appear.
+//
+// A frame may carry the same parameter more than once. The values are processed in order, so only
+// the last value of a parameter is in force once the frame has been processed, and it is the only
+// one the sender of the frame is committed to (RFC 7540, section 6.5.3). The initial window size
+// and the maximum frame size are therefore updated once, with that value: an earlier, larger
+// initial window size would release queued DATA frames that the value in force does not cover.
+//
+// Every header table size is passed on: the smallest size that occurred since the last header
+// block has to be signaled at the start of the next one, before the size in force (RFC 7541,
+// section 4.2), and the entries that do not fit it are gone. The HPACK encoder takes care of
+// that, provided it is told every value.
+//
+// This is called by `peer`, so requires a thread-safe implementation.
+func (r *relay) applySettings(settings []http2.Setting) {
+	inForce := func(i int) bool {
+		for _, s := range settings[i+1:] {
+			if s.ID == settings[i].ID {
+				return false
+			}
+		}
+		return true
+	}
+
+	for i, s := range settings {
+		switch s.ID {
+		case http2.SettingHeaderTableSize:
+			r.updateTableSize(s.Val)
+		case http2.SettingInitialWindowSize:
+			if inForce(i) {
+				r.updateInitialWindowSize(s.Val)
+			}
+		case http2.SettingMaxFrameSize:
+			if inForce(i) {
+				r.updateMaxFrameSize(s.Val)
+			}
+		}
+	}
 }
 
 func (r *relay) updateTableSize(v uint32) {
